@@ -103,6 +103,9 @@ func (this *Server) setup() error {
 	}
 
 	this.nodesManager = raft.NewNodesManager(this.clusterConn, this.zeroGroup)
+	if err := this.nodesManager.RegisterSnapshots(sharedGroup.Get("nodes")); err != nil {
+		return err
+	}
 
 	this.datasetManager, err = storage.NewDatasetManager(sharedGroup.Get("datasets"), this.db, raftTransport, this.clusterConn, this.allocator)
 	if err != nil {
